@@ -1,8 +1,9 @@
 SPECIFICATION Spec
 CONSTANTS
   GateMods <- GateModsSmall
-  Names = {"a", "h"}
-  MaxStmts = 2
-  MaxDepth = 2
+  Names = {"h", "x"}
+  MaxStmts = 5
+  MaxDepth = 1
+CONSTRAINT FocusStd
 INVARIANTS ScopeDepthMatchesNesting BackToGlobal IdsDense MSatisfiesR Emit
 CHECK_DEADLOCK FALSE
